@@ -288,6 +288,25 @@ def gen_cache_trace(seed, faults, kinds=("wb", "wt")):
                     ops.append(["PRE", w, ctx.aligned_addr(w), ctx.value(w)])
         else:
             ops.append(_rw(ctx, p_write, p_fault, p_unc))
+    if marathon:
+        # marathons keep about one reset in twenty-five (motifs bring one every 150 operations or so), so that counts and
+        # ages grow into the thousands; a parser-style preload only ever follows a reset, so it goes with it
+        rk = R.stream(seed, "marathon-resets")
+        kept, dropping = [], False
+        wide = ctx.nblocks >= 40
+        for op in ops:
+            if op[0] == "INSPECT" and wide and marathon > 1000 and rk.random() < 0.9:
+                continue  # the repository's table read-out costs 0.1 s once thousands of words exist
+            if op[0] == "RESET":
+                dropping = rk.random() >= 0.04
+                if dropping:
+                    continue
+            elif op[0] == "PRE" and dropping and kept:
+                continue
+            else:
+                dropping = False
+            kept.append(op)
+        ops = kept
     return {"config": cfg, "faults": bool(faults), "decoy": r.random() < 0.25, "ops": ops[: max(100 * dm, marathon + 20)]}
 
 
